@@ -37,9 +37,11 @@ def record_history(pa, rng, length, max_obj=4, ops_weights=None):
     objs = {}
     events = []
     w = {"new": 2, "add": 14, "add_annotator": 2, "remove": 5, "copy": 2, "copy_flush": 1, "merge_in_place": 2,
-         "merge_new": 1, "plus": 1, "reset_bounds": 2, "drop": 1, "getitem_mutate": 1, "add_timeline": 1, "add_annotation": 1}
+         "merge_new": 1, "plus": 1, "reset_bounds": 2, "drop": 1, "getitem_mutate": 1, "add_timeline": 1, "add_annotation": 1,
+         "transplant": 2}
     if ops_weights:
         w.update(ops_weights)
+    queue = []          # planned ordinary events (a "transplant" is copy + remove + add of the same unit under another annotator)
     for _ in range(length):
         live = sorted(objs)
         free = [i for i in range(1, max_obj + 1) if i not in objs]
@@ -55,8 +57,27 @@ def record_history(pa, rng, length, max_obj=4, ops_weights=None):
                 continue
             if op == "drop" and len(live) < 2:
                 continue
+            if op == "transplant" and (not free or not any(objs[o].num_units and len(objs[o].annotators) > 1 for o in live)):
+                continue
             cand += [op] * k
         op = rng.choice(cand)
+        F = {}
+        if queue:
+            F = queue.pop(0)
+            op = F["op"]
+        elif op == "transplant":
+            # same annotators, same units in the same flattened order, another owner: two continua that must compare unequal
+            o = rng.choice([o for o in live if objs[o].num_units and len(objs[o].annotators) > 1])
+            a, u = rng.choice([(a, u) for a, u in objs[o]])
+            b = rng.choice([x for x in objs[o].annotators if x != a])
+            F, op = {"op": "copy", "o": o, "o2": free[0]}, "copy"
+            queue += [{"op": "remove", "o": free[0], "a": a, "u": u},
+                      {"op": "add", "o": free[0], "a": b, "s": float(u.segment.start), "t": float(u.segment.end), "l": u.annotation}]
+        if F and F["o"] not in objs:
+            queue, F = [], {}
+            op = "add" if live else "new"
+            if op == "new" and not free:
+                continue
         e = {"op": op, "args": [], "out": "ok"}
         try:
             if op == "new":
@@ -65,6 +86,8 @@ def record_history(pa, rng, length, max_obj=4, ops_weights=None):
                 e["args"] = [o]
             elif op == "add":
                 o = rng.choice(live); a = rng.choice(ANNS); s, t = rnd_segment(rng); l = rng.choice(LABELS)
+                if F:
+                    o, a, s, t, l = F["o"], F["a"], F["s"], F["t"], F["l"]
                 e["args"] = [o, a, s, t, l]
                 objs[o].add(a, Segment(s, t), l)
             elif op == "add_annotator":
@@ -96,10 +119,14 @@ def record_history(pa, rng, length, max_obj=4, ops_weights=None):
                     if t <= s:
                         t = s + 1.0
                     a, u = rng.choice(ANNS), Unit(Segment(s, t), rng.choice(LABELS))
+                if F:
+                    o, a, u = F["o"], F["a"], F["u"]
                 e["args"] = [o, a, float(u.segment.start), float(u.segment.end), u.annotation]
                 objs[o].remove(a, u)
             elif op == "copy":
                 o = rng.choice(live); o2 = free[0]
+                if F:
+                    o, o2 = F["o"], F["o2"]
                 e["args"] = [o, o2]
                 objs[o2] = objs[o].copy()
             elif op == "copy_flush":
